@@ -411,6 +411,10 @@ Fixpoint spec_ops (o : opts) (rn : Z) (l : list (op * Z)) (d : dict) (acc : tnum
       (d2, acc2, md2, snd (raw p d) :: xs)
   end.
 
+(* the cookie size limit the property speaks of (a property-level constant, deliberately not
+   the regenerated one: if the check disappears from the code the specification keeps it) *)
+Definition spec_limit : N := 4064%N.
+
 Definition store_sess (sv : store) : sess :=
   {| st := s_st sv; created := TF (s_created sv); accessed := s_acc sv; renewed := s_acc sv; isnew := false; dirty := true |}.
 
@@ -419,7 +423,7 @@ Definition spec_req (O : oracles) (o : opts) (sv : option store) (r : req) : sob
   let '(d1, acc, md, xs) := spec_ops o rn (rops r) d0 (TF rn) false in
   let sv1 := {| s_st := d1; s_created := cr; s_acc := acc |} in
   let f := if md && negb (negb (soe o) && rexc r)
-           then if Z.gtb (Z.of_nat (length (cookie_of O o (store_sess sv1)))) (Z.of_N cookie_limit) then 2%N else 1%N
+           then if Z.gtb (Z.of_nat (length (cookie_of O o (store_sess sv1)))) (Z.of_N spec_limit) then 2%N else 1%N
            else 0%N in
   ({| b_new := nw; b_created := cr; b_start := d0; b_res := xs; b_end := d1; b_fin := f |},
    if N.eqb f 1 then Some sv1 else sv).
@@ -445,6 +449,41 @@ Fixpoint spec_chain (O : oracles) (o : opts) (sv : option store) (live : bool) (
         end
   end.
 
+(* which wrapper each method must carry for the property to hold: every method whose dict-level
+   effect can change the state carries manage_changed (2), every reading method manage_accessed (1);
+   changed() and invalidate() are bare (invalidate goes through the wrapped clear) *)
+Definition expected_wrapper (m : meth) : N :=
+  match m with
+  | MGet | MGetItem | MItems | MValues | MKeys | MContains | MLen | MIter | MPeekFlash | MGetCsrf => 1%N
+  | MChanged | MInvalidate => 0%N
+  | _ => 2%N
+  end.
+
+(* the effect on time stamp and dirty flag that the property expects of an operation of each kind *)
+Definition eff (o : opts) (c : cls) (now : Z) (s : sess) : sess :=
+  match c with CAcc => apply_wrap o now s 1%N | CMut => apply_wrap o now s 2%N | CMark => mark s end.
+
+Definition fresh_sess (now : Z) : sess :=
+  {| st := []; created := TF now; accessed := TF now; renewed := TF now; isnew := true; dirty := false |}.
+
+(* premises about the third-party functions, stated explicitly in the theorems that need them *)
+Definition rt_b64 (O : oracles) : Prop := forall x, unb64 O (b64 O x) = Some x.
+Definition rt_ser (O : oracles) : Prop := forall p, deser O (ser O p) = Some p.
+Definition mac_len (O : oracles) : Prop := forall k m, length (mac O k m) = ds O.
+
+(* the session the property expects at the start of a request, given what the last cookie holds *)
+Definition start_sess (o : opts) (sv : option store) (now : Z) : sess :=
+  let '(nw, cr, rn, d0) := spec_start o sv now in
+  {| st := d0; created := TF cr; accessed := TF rn; renewed := TF rn; isnew := nw; dirty := false |}.
+
+(* link between the cookie last set (model) and the store (specification) *)
+Definition inv (O : oracles) (o : opts) (last : option text) (sv : option store) : Prop :=
+  match last, sv with
+  | None, None => True
+  | Some c, Some v => c = cookie_of O o (store_sess v)
+  | _, _ => False
+  end.
+
 Definition fin_code (f : fin) : N := match f with FNone => 0 | FCookie _ => 1 | FOversize => 2 end.
 Definition proj (ob : robs) : option sobs :=
   match ob with
@@ -452,6 +491,9 @@ Definition proj (ob : robs) : option sobs :=
                               b_res := rs; b_end := st s1; b_fin := fin_code f |}
   | _ => None
   end.
+
+Definition ok_at (ob : robs) (sp : option sobs) : Prop :=
+  match sp with None => True | Some b => proj ob = Some b end.
 
 (* ================================================================== concrete instances for the runner *)
 (* json.dumps (ensure_ascii, default separators) on the data model *)
